@@ -85,26 +85,36 @@ class SchedProp(Prop):
 
     def skip_case(self, inp, raw):
         # a generated flow.cylc that cylc rejects at load time is not a scheduler run
-        if 'error' in raw:
+        if 'error' in raw and raw.get('stage') == 'load':
             self.rejected = getattr(self, 'rejected', 0) + 1
-            if self.rejected > 0 and 'ops' in inp and inp.get('ops') is not None:
-                raise Infra(f'replayed case failed to run: {raw["error"][-400:]}')
             return True
         return False
 
     def driver_input(self, inp, raw):
+        if 'error' in raw:
+            # the real scheduler raised while running: never a behaviour of the model
+            return {'crash': raw['error'].strip().splitlines()[-1][:300]}
         return {'graph': raw['graph'], 'ops': raw['ops'], 'kind': inp.get('kind')}
 
     def driver_obs(self, inp, raw):
+        if 'error' in raw:
+            return {'crash': raw['error'][-1500:]}
         return raw['obs']
 
     def replay_input(self, inp, driver_inp):
+        if 'crash' in driver_inp:
+            return inp
+        return self._replay_input(inp, driver_inp)
+
+    def _replay_input(self, inp, driver_inp):
         # exact replay: same flow, the recorded op list
         d = dict(inp)
         d['ops'] = driver_inp['ops']
         return d
 
     def classify(self, inp, obs):
+        if isinstance(obs, dict):
+            return 'crash'
         tags = [inp.get('kind', '?')]
         last = obs[-1]
         tags.append('stop' if last['stop'] else ('stalled' if last['stalled'] else 'cut'))
